@@ -309,8 +309,15 @@ def verify_contract(contract, repo, callee_contracts, models_factory, max_paths=
 
 
 def discharge(rep, timeout_ms=None):
-    """Run the SMT back ends on every obligation of a function report."""
+    """Run the SMT back ends on every obligation of a function report.  With PVC_CROSSCHECK=1 (thorough tier) a sample of the
+    obligations z3 5.1 proved is re-run on the other installed solvers (z3 4.8.12, cvc5) from the SMT-LIB dump."""
+    import os
+    import zlib
+
+    cross = os.environ.get("PVC_CROSSCHECK") == "1"
     for ob in rep.obligations:
         if ob.result is None:
             ob.result = smt.prove(ob.hyps, ob.goal, timeout_ms=timeout_ms)
+            if cross and ob.result.status == "unsat" and ob.result.backend.startswith("z3") and ob.hyps and zlib.crc32(ob.name.encode()) % 4 == 0:
+                ob.result.cross = smt.cross_check(ob.hyps, ob.goal)
     return rep
